@@ -280,6 +280,7 @@ qb_log_blackbox_print_from_file(const char *bb_filename)
 		uint32_t msg_len;
 		struct tm *tm;
 		char message[QB_LOG_MAX_LEN];
+		char msgbuf[QB_LOG_MAX_LEN * 5 + 16];
 
 		bytes_read = qb_rb_chunk_read(instance, chunk, max_size, 0);
 
@@ -327,6 +328,19 @@ qb_log_blackbox_print_from_file(const char *bb_filename)
 
 		function = ptr;
 		ptr += fn_size;
+		if (function[fn_size - 1] != '\0') {
+			printf("ERROR Corrupt file: function name not terminated\n");
+			err = -EIO;
+			goto cleanup;
+		}
+
+		/* the timestamp and the message length must lie inside the chunk */
+		if ((ptr - chunk) + (have_timespecs ? sizeof(struct timespec) : sizeof(time_t)) +
+		    sizeof(uint32_t) > (size_t)bytes_read) {
+			printf("ERROR Corrupt file: record too short\n");
+			err = -EIO;
+			goto cleanup;
+		}
 
 		/* timestamp size & content */
 		if (have_timespecs) {
@@ -361,9 +375,29 @@ qb_log_blackbox_print_from_file(const char *bb_filename)
 
 		ptr += sizeof(uint32_t);
 
+		/* the serialized message (format string, then its arguments) must
+		 * lie inside the chunk and the format string must be terminated */
+		if ((size_t)(ptr - chunk) + msg_len > (size_t)bytes_read ||
+		    memchr(ptr, '\0', msg_len) == NULL) {
+#ifndef S_SPLINT_S
+			printf("ERROR Corrupt file: message (%" PRIu32 " bytes) does not fit the record\n", msg_len);
+			err = -EIO;
+#endif /* S_SPLINT_S */
+			goto cleanup;
+		}
+		/* A damaged format string can ask for more argument bytes than were
+		 * stored (at most 8 for every 2 format characters): decode from a
+		 * copy that is followed by zeros so that every read stays in bounds. */
+		memset(msgbuf, 0, sizeof(msgbuf));
+		memcpy(msgbuf, ptr, msg_len);
+
 		/* message content */
-		len = qb_vsnprintf_deserialize(message, QB_LOG_MAX_LEN, ptr);
-		assert(len > 0);
+		len = qb_vsnprintf_deserialize(message, QB_LOG_MAX_LEN, msgbuf);
+		if (len == 0) {
+			printf("ERROR Corrupt file: undecodable message\n");
+			err = -EIO;
+			goto cleanup;
+		}
 		if (len > QB_LOG_MAX_LEN - 1) {
 			len = QB_LOG_MAX_LEN - 1;
 		}
